@@ -1,0 +1,12 @@
+//go:build verif
+
+// Contracts for govc (see /verif/DESIGN.md). Comment-only: no executable code with or without the tag.
+
+package metrics
+
+// Counter bookkeeping behind its own lock; callers only rely on "nothing of theirs changes" (frame, trusted: the
+// map and lock are private to this package) and on the receiver being non-nil when safety is checked.
+//@ func (m *Metrics) Add(name string, val int)
+//@   requires @SAFETY: m != nil
+//@   assigns nothing
+//@   trusted
